@@ -60,7 +60,7 @@ let str_acc = function
   | ENoSpecifiers -> "ENoSpecifiers" | ENeedMapping -> "ENeedMapping" | EMissingKeys -> "EMissingKeys"
   | ETooFew -> "ETooFew" | ETooMany -> "ETooMany" | EInteger -> "EInteger" | ENumeric -> "ENumeric"
   | ECRange -> "ECRange" | ECLen -> "ECLen" | ECType -> "ECType" | EBytesOnly -> "EBytesOnly"
-  | EStar -> "EStar" | EPct -> "EPct"
+  | EStar -> "EStar" | EPct -> "EPct" | EUnhandled -> "EUnhandled"
 let str_list f l = if l = [] then "none" else String.concat "," (List.map f l)
 
 let percent () =
@@ -156,6 +156,26 @@ let format () =
      | FVRaises -> "raises" | FVFine -> "fine" | FVUndecided -> "undecided" | FVFuel -> "FUEL") in
   print_endline (pa ^ " " ^ py)
 
+(* Y <is_bytes> <n> code*n TARGS
+   TARGS := T <n> (<k> AVAL*k)*n | O | S AVAL ;  AVAL := K OBJ | A <0..6> *)
+let aval () =
+  match next () with
+  | "K" -> AK (obj ())
+  | "A" -> AT (match next_int () with 0 -> TyInt | 1 -> TyBool | 2 -> TyFloat | 3 -> TyStr | 4 -> TyBytes | 5 -> TyOther | _ -> TyAny)
+  | t -> failwith ("bad aval " ^ t)
+let typed () =
+  let is_bytes = next_int () = 1 in
+  let t = codes () in
+  let ta = (match next () with
+    | "T" -> let n = next_int () in TTuple (list_init_seq n (fun () -> let k = next_int () in list_init_seq k aval))
+    | "O" -> TOpaque
+    | "S" -> TScalar (aval ())
+    | x -> failwith ("bad targs " ^ x)) in
+  match pa_scan is_bytes t with
+  | None -> print_endline "FUEL"
+  | Some (specs, pieces) ->
+    print_endline ("specs=" ^ str_specs specs ^ " acc=" ^ str_list str_acc (accept_tuple_typed is_bytes specs ta))
+
 let () =
   try
     while true do
@@ -166,6 +186,7 @@ let () =
         match next () with
         | "P" -> percent ()
         | "F" -> format ()
+        | "Y" -> typed ()
         | t -> print_endline ("ERR unknown mode " ^ t)
       with e -> print_endline ("ERR " ^ Printexc.to_string e))
     done
